@@ -58,7 +58,7 @@ structure Obj where
   ext : Nat := 0                      -- `_ext._handles`
   cap : Nat := 0                      -- `_ext._capacity`
   typed : Bool := false               -- `suspend_point<X>` (true) or `suspend_point<void>`
-  value : Nat := 0                    -- `value` of `suspend_point<X>`
+  value : Option Nat := none          -- `value` of `suspend_point<X>`; `none` = moved from (content unspecified) / no value
   deriving DecidableEq, Repr, Inhabited
 
 /-- `_count_flag >> 1` -/
@@ -251,7 +251,10 @@ inductive Op where
   | yield (me : Ptr)                       -- co_await pause()  in coroutine `me`
   | size (i : Nat)
   | empty (i : Nat)
-  | value (i : Nat)
+  | value (i : Nat)                        -- all three reads in a row: operator X(), operator const X() const, await_resume()
+  | conv (i : Nat)                         -- X(sp)   on a non-const lvalue: `operator X()`
+  | cconv (i : Nat)                        -- X(sp)   on a const lvalue: `operator const X() const`
+  | ares (i : Nat)                         -- sp.await_resume()
   | finish                                 -- the running coroutine ends: the queue is flushed
   deriving DecidableEq, Repr
 
@@ -261,6 +264,7 @@ inductive Res where
   | handle (h : Option Ptr)   -- pop(): `none` = noop_coroutine
   | num (n : Nat)
   | flag (b : Bool)
+  | gone                      -- a value that has been moved from was read
   deriving DecidableEq, Repr
 
 /-- a fresh object can be constructed in slot `i` -/
@@ -268,11 +272,11 @@ def vacant (s : State) (i : Nat) : Bool := i < s.objs.length && (s.obj i).isNone
 
 /-- the move constructor of the base: copies `_count_flag` and the storage variant selected by the flag,
 resets the source's `_count_flag` -/
-def moveFrom (oj : Obj) (typed : Bool) (value : Nat) : Obj :=
+def moveFrom (oj : Obj) (typed : Bool) (value : Option Nat) : Obj :=
   if oj.cf % 2 = 1 then { cf := oj.cf, ext := oj.ext, cap := oj.cap, typed := typed, value := value }
   else { cf := oj.cf, inl := oj.inl, typed := typed, value := value }
 
-def stepMove (s : State) (i j : Nat) (typed : Bool) (value : Nat) (oj : Obj) : State :=
+def stepMove (s : State) (i j : Nat) (typed : Bool) (value : Option Nat) (oj : Obj) : State :=
   setObj (setObj s i (some (moveFrom oj typed value))) j (some { oj with cf := 0 })
 
 /-- `operator<<(suspend_point &&)` for two distinct objects (`&other == this` returns at once, see `step`): every
@@ -283,10 +287,17 @@ def stepMerge (s : State) (i j : Nat) (oj : Obj) : State :=
   -- `delete[] other._ext._handles` if flagged, `other._count_flag = 0`: the same statements as `clear_internal()`
   clearInternal (addAll s i (handlesOf s oj)) j oj
 
-def setValue (s : State) (i : Nat) (v : Nat) : State :=
+/-- the `value` member of object `i` is assigned / moved from (no other member changes) -/
+def setVal (s : State) (i : Nat) (v : Option Nat) : State :=
   match s.obj i with
   | none => s
   | some o => setObj s i (some { o with value := v })
+
+/-- what reading the value of a typed suspend point yields; reading never changes the object -/
+def readVal (o : Obj) : Res :=
+  match o.value with
+  | some v => Res.num v
+  | none => Res.gone
 
 def step (s : State) (op : Op) : State × Res :=
   match op with
@@ -295,23 +306,28 @@ def step (s : State) (op : Op) : State × Res :=
       if vacant s i then
         (setObj { s with given := s.given ++ [h] } i (some { cf := 2, inl := [h, junk, junk] }), Res.unit)
       else (s, Res.bad)
-  | Op.ctorV i v => if vacant s i then (setObj s i (some { typed := true, value := v }), Res.unit) else (s, Res.bad)
+  | Op.ctorV i v => if vacant s i then (setObj s i (some { typed := true, value := some v }), Res.unit) else (s, Res.bad)
   | Op.ctorHV i h v =>
       if vacant s i then
         (setObj { s with given := s.given ++ [h] } i
-          (some { cf := 2, inl := [h, junk, junk], typed := true, value := v }), Res.unit)
+          (some { cf := 2, inl := [h, junk, junk], typed := true, value := some v }), Res.unit)
       else (s, Res.bad)
   | Op.ctorSV i j v =>
       match s.obj j with
-      | some oj => if vacant s i then (stepMove s i j true v oj, Res.unit) else (s, Res.bad)
+      | some oj => if vacant s i then (stepMove s i j true (some v) oj, Res.unit) else (s, Res.bad)
       | none => (s, Res.bad)
   | Op.mov i j =>
       match s.obj j with
-      | some oj => if vacant s i then (stepMove s i j oj.typed oj.value oj, Res.unit) else (s, Res.bad)
+      | some oj =>
+          if vacant s i then
+            -- implicit move constructor of suspend_point<X>: base moved, `value(std::move(other.value))`
+            (if oj.typed then setVal (stepMove s i j oj.typed oj.value oj) j none
+             else stepMove s i j oj.typed oj.value oj, Res.unit)
+          else (s, Res.bad)
       | none => (s, Res.bad)
   | Op.movBase i j =>
       match s.obj j with
-      | some oj => if vacant s i then (stepMove s i j false 0 oj, Res.unit) else (s, Res.bad)
+      | some oj => if vacant s i then (stepMove s i j false none oj, Res.unit) else (s, Res.bad)
       | none => (s, Res.bad)
   | Op.merge i j =>
       match s.obj i, s.obj j with
@@ -322,7 +338,9 @@ def step (s : State) (op : Op) : State × Res :=
       | some oi, some oj =>
           if i = j then (s, Res.unit)                              -- `&other == this`: no-op
           else if oi.typed && !oj.typed then (s, Res.bad)          -- does not compile
-          else if oi.typed then (setValue (stepMerge s i j oj) i oj.value, Res.unit)
+          else if oi.typed then
+            -- implicit move assignment of suspend_point<X>: base `operator=` (merge), `value = std::move(other.value)`
+            (setVal (setVal (stepMerge s i j oj) i oj.value) j none, Res.unit)
           else (stepMerge s i j oj, Res.unit)
       | _, _ => (s, Res.bad)
   | Op.addH i h =>
@@ -346,7 +364,7 @@ def step (s : State) (op : Op) : State × Res :=
       | none => (s, Res.bad)
   | Op.await i me =>
       match s.obj i with
-      | some o => (awaitObj s i o me, Res.unit)
+      | some o => (awaitObj s i o me, if o.typed then readVal o else Res.unit)   -- co_await yields await_resume()
       | none => (s, Res.bad)
   | Op.yield me =>
       if s.active then (flushUntil (enqueue { s with given := s.given ++ [me] } [me]) me, Res.unit)
@@ -361,7 +379,19 @@ def step (s : State) (op : Op) : State × Res :=
       | none => (s, Res.bad)
   | Op.value i =>
       match s.obj i with
-      | some o => if o.typed then (s, Res.num o.value) else (s, Res.bad)
+      | some o => if o.typed then (s, readVal o) else (s, Res.bad)
+      | none => (s, Res.bad)
+  | Op.conv i =>
+      match s.obj i with
+      | some o => if o.typed then (s, readVal o) else (s, Res.bad)
+      | none => (s, Res.bad)
+  | Op.cconv i =>
+      match s.obj i with
+      | some o => if o.typed then (s, readVal o) else (s, Res.bad)
+      | none => (s, Res.bad)
+  | Op.ares i =>
+      match s.obj i with
+      | some o => if o.typed then (s, readVal o) else (s, Res.bad)
       | none => (s, Res.bad)
   | Op.finish => if s.active then (flushAll s, Res.unit) else (s, Res.unit)
 
